@@ -530,3 +530,369 @@ Theorem C06_codegen_simulates_cf_example_runs :
   fst (run_x86 10 2000 exc_code [-3]) = ([], OExit (-21)).
 Proof. exact exc_runs. Qed.
 Print Assumptions C06_codegen_simulates_cf_example_runs.
+
+
+(* ======================================================================================== *)
+(* HEAP statements: Let / Switch / Create with captured variables / Invoke / Substitute on    *)
+(* objects - and the program-level theorem for ALL statement forms (worker sim86b)           *)
+(* ======================================================================================== *)
+From SCC Require Import Model.Linearize Proof.X86Mem Sem.AxHeap Proof.X86HeapDefs Proof.X86HBridge Proof.X86HFrame Proof.X86HSimRel Proof.X86HSimStmt
+     Proof.X86HSimStore Proof.X86HSimLoad Proof.X86HSimSubst Proof.X86HLayout Proof.X86HSimHeapA Proof.X86HAnn Proof.X86HAnnLin
+     Proof.X86HSimHeapB Proof.X86HSimHeapC Proof.X86HSimProgA Proof.X86HSimProg Proof.X86HSimTop Proof.X86HSimCor Proof.X86HSimExample
+     Proof.AxHeapExample.
+From SCC Require Model.Heap Proof.HeapRep Proof.AxHeapTyping Proof.AxHeapSafe Proof.X86MemStoreChain Proof.X86HeapAcq Proof.X86State.
+Open Scope Z_scope.
+Open Scope list_scope.
+(* THE STATE RELATION  `hrel types CLO c he hs s sp`  (Proof/X86HSimRel.v) between a configuration of the
+   HEAP-INSTRUMENTED linear machine (Sem/AxHeap.v: environment he of (name, value, block pointer) by position, abstract
+   allocator state hs of Model/Heap.v) and an ISA state s.  It extends `rel` above:
+     frame / alignment / room as in `rel`;
+     register HEAP = Heap.heap hs (allocation frontier block), register FREE = Heap.free hs (head of the free list);
+     `heq (abs_heap (Heap.frontier hs) s) hs`: the abstraction of the ISA heap (C09) and the allocator state agree on
+        frontier, heap, free, and on every block's header and next pointer, and on the slots UP TO ZERO PADDING
+        (a zeroed block is [] in the model and [0;0;0] in memory);
+     names of he and c agree, pairwise distinct; position i is represented (`hvrep`):
+       integer z (ext i64): second temporary = z;
+       object / closure v with block pointer q (the one the instrumented machine carries): first temporary = q,
+         second temporary = a with  `xrep types CLO (hword s) v q a`, a relation over the heap WORDS of s:
+           object  VObj tn tag fs : a = jump_length (position of tag in tn) (`tag_word`, with the field kinds);
+           closure VClo tn cls ce : `CLO a tn cls (ctx_of_env ce)` - for the program-level theorem CLO is
+             `hclo_ok im p`: a is the address of the code of the clauses (jump table or the single clause), each
+             clause's field-load code and body placed there, compiled in context  cl_ctx ++ captured context;
+           fields (`xflds`): none and q = 0; or q is a chain of nlinks(#fields) blocks (`wblocks`, all `is_blk`) whose
+             slot addresses (`waddrs`, three per block, in field order) hold zero padding first and then, per field,
+             pointer word and data word at +8 related by `xrep` again.
+   `hframe_eq s s' sp`: output unchanged and every stack word outside the spill area unchanged (the heap changes).
+   First consequence: operand lookup of integers. *)
+Theorem C06_heap_rel_reads :
+  forall (types : list tydecl) (CLO : Z -> ident -> list clause -> ctx -> Prop) (c : ctx) (he : henv) (hs : Heap.st)
+         (s : xstate) (sp : Z) (a : ident) (x : Z),
+    hrel types CLO c he hs s sp ->
+    lookup_int (erase_env he) a = Some x ->
+    exists (i : nat) (b : binding) (t : xtemp),
+      nth_error c i = Some b /\ idn (bvar b) = idn a /\ SubstGraph.tpos x86_backend Snd i = Ok t /\ X86State.lget s sp t = Some x.
+Proof. exact hrel_lookup. Qed.
+Print Assumptions C06_heap_rel_reads.
+
+(* BRIDGE from the invariant of the abstract allocator (C09/C10: InvA with the roots of the environment) to the
+   hypotheses of the x86-64 refinement theorems of C09.
+   Allocation of an object with the given field pointers: the precondition `alloc_object_pre` of the store refinement
+   holds on the ABSTRACTED ISA heap; the blocks acquired there are the ones the model acquires, pairwise distinct,
+   inside the heap region and not reachable from the roots.  Numeric hypotheses: fewer than 2^20 roots (true: at most
+   134 positions), and the frontier after the allocation leaves room for one block (`heap_fits` below). *)
+Theorem C06_heap_bridge_alloc :
+  forall (fields : list Z) (a s : Heap.st) (R R0 hl fl cl : list Z),
+    InvA HEAP_BASE s R hl fl cl -> heq a s -> P3 s ->
+    Permutation.Permutation R (Heap.nz fields ++ R0) ->
+    fields <> nil ->
+    Z.of_nat (List.length R) < 1048576 ->
+    Heap.frontier (snd (Heap.alloc_object fields s)) + 64 <= LIMIT ->
+    X86MemStoreChain.alloc_object_pre fields a /\
+    X86HeapAcq.alloc_object_acq fields a = X86HeapAcq.alloc_object_acq fields s /\
+    NoDup (X86HeapAcq.alloc_object_acq fields s) /\
+    (forall b : Z, In b (X86HeapAcq.alloc_object_acq fields s) -> is_blk b /\ ~ reach (Heap.m s) R b).
+Proof. exact alloc_object_bridge. Qed.
+Print Assumptions C06_heap_bridge_alloc.
+(* reference counts are 32-bit (header bound of the share / erase refinements): at most one reference per slot of
+   a block of the region plus one per root *)
+Theorem C06_heap_bridge_header_bounds :
+  forall (s : Heap.st) (R hl fl cl : list Z),
+    InvA HEAP_BASE s R hl fl cl -> P3 s -> Heap.frontier s <= LIMIT -> Z.of_nat (List.length R) <= 1048576 ->
+    forall x : Z, is_blk x -> 0 <= Heap.hdr (Heap.m s x) <= HB.
+Proof. exact hdr_bounds_x. Qed.
+Print Assumptions C06_heap_bridge_header_bounds.
+(* operands are blocks: everything reachable from the roots is a block of the heap region *)
+Theorem C06_heap_bridge_operands_are_blocks :
+  forall (s : Heap.st) (R hl fl cl : list Z) (b : Z),
+    InvA HEAP_BASE s R hl fl cl -> Heap.frontier s <= LIMIT -> reach (Heap.m s) R b -> is_blk b.
+Proof. exact reach_is_blk. Qed.
+Print Assumptions C06_heap_bridge_operands_are_blocks.
+(* the pointers the instrumented machine reads out of an object (`load_ptrs`, from the model's slots) are the
+   pointer words of the ISA heap at the slot addresses of the chain *)
+Theorem C06_heap_bridge_loaded_pointers :
+  forall (F : Z) (s : xstate) (hs : Heap.st) (lk : HeapRep.lkmap) (fs : list value) (q : Z),
+    heq (abs_heap F s) hs -> P03 hs -> fs <> nil ->
+    HeapRep.rep_flds lk (Heap.m hs) fs q ->
+    Forall is_blk (wblocks (Heap.nlinks (List.length fs)) (hword s) q) ->
+    load_ptrs hs (List.length fs) q =
+    map (hword s) (skipn (List.length (waddrs (Heap.nlinks (List.length fs)) (hword s) q) - List.length fs)
+                         (waddrs (Heap.nlinks (List.length fs)) (hword s) q)).
+Proof. exact load_ptrs_words. Qed.
+Print Assumptions C06_heap_bridge_loaded_pointers.
+
+(* STATEMENT LEVEL.  `Let v = tag(args); next`: the code stores the last |args| positions into a fresh chain of blocks
+   (acquire from the free list or the frontier, deferred erase of the fields of a reused block, zero padding), loads
+   the tag and falls into the code of `next` (placed behind: c3), in the state related to the machine's next
+   configuration: the fields are consumed, v is bound to the object, the allocator state is alloc_object's. *)
+Theorem C06_sim_let :
+  forall (im : image) (p : prog) (c : ctx) (he : henv) (hs : Heap.st) (s : xstate) (sp : Z) (v : ident) (t : ty) (tag : ident)
+         (args : ctx) (next : stmt) (lc : N) (code : list xcode) (lc' : N) (pc : positive) (he0 fs : list hentry) (tn : ident)
+         (hl fl cl : list Z),
+    hrel (ptypes p) (hclo_ok im p) c he hs s sp ->
+    lin_check (sigs_of p) c (Let v t tag args next) = true ->
+    code_statement x86_backend (ptypes p) (Let v t tag args next) c lc = Ok (code, lc') ->
+    X86Exec.code_at im pc code ->
+    X86SimRel.labels_at_nh im pc code ->
+    ty_name t = Some tn ->
+    AxSem.split_last (List.length args) he = Some (he0, fs) ->
+    InvA HEAP_BASE hs (roots he) hl fl cl ->
+    P03 hs ->
+    (forall en : hentry, In en he -> chi_of (h_val en) = Ext -> h_ptr en = 0) ->
+    let res0 := Heap.alloc_object (map store_ptr fs) hs in
+    Heap.frontier (snd res0) + 64 <= LIMIT ->
+    Heap.heap (snd res0) <> 0 ->
+    Heap.free (snd res0) <> 0 ->
+    let c0 := firstn (List.length c - List.length args) c in
+    exists (c12 c3 : list xcode) (lc1 : N) (s' : xstate),
+      code = c12 ++ c3 /\
+      code_statement x86_backend (ptypes p) next (c0 ++ {| bvar := v; bchi := Prd; bty := t |} :: nil) lc1 = Ok (c3, lc') /\
+      lin_check (sigs_of p) (c0 ++ {| bvar := v; bchi := Prd; bty := t |} :: nil) next = true /\
+      X86Exec.exec_to im pc s (X86Exec.padd pc (List.length c12)) s' /\
+      hrel (ptypes p) (hclo_ok im p) (c0 ++ {| bvar := v; bchi := Prd; bty := t |} :: nil)
+        (he0 ++ (v, VObj tn tag (map h_val fs), fst res0) :: nil) (snd res0) s' sp /\ hframe_eq s s' sp.
+Proof. exact hsim_let. Qed.
+Print Assumptions C06_sim_let.
+
+(* `Switch v {clauses}`: the code dispatches on the tag (second temporary; jump table of `jump_length` entries, or
+   fall-through for a single clause), the clause's code loads the fields (share of each field pointer, release of the
+   block or decrement, chain walk) and reaches the code of the clause body - placed in the image, compiled in the
+   context the machine continues in - in a related state.  `back_ok im`: a jump to an address enters at the FIRST
+   instruction placed there (labels have size zero); addresses below 2^62. *)
+Theorem C06_sim_switch :
+  forall (im : image) (p : prog),
+    X86SimAddr.img_ok im -> back_ok im ->
+    (forall (pc : PM.key) (a : Z), PM.find pc (addr_of im) = Some a -> a < 4611686018427387904) ->
+    forall (c : ctx) (he : henv) (hs : Heap.st) (s : xstate) (sp : Z) (v : ident) (t : ty) (cls : list (ident * ctx * stmt))
+           (lc : N) (code : list xcode) (lc' : N) (pc : positive) (he0 : list hentry) (x tn tag : ident) (fs : list value)
+           (q : Z) (cl : clause) (e1 : env) (lk : HeapRep.lkmap) (hl fl cl0 : list Z),
+    hrel (ptypes p) (hclo_ok im p) c he hs s sp ->
+    lin_check (sigs_of p) c (Switch v t cls) = true ->
+    code_statement x86_backend (ptypes p) (Switch v t cls) c lc = Ok (code, lc') ->
+    X86Exec.code_at im pc code ->
+    X86SimRel.labels_at_nh im pc code ->
+    (forall lcx : N, is_hash_label (type_label t lcx) = false) ->
+    AxSem.split_last 1 he = Some (he0, (x, VObj tn tag fs, q) :: nil) ->
+    find_clause cls tag = Some cl ->
+    bind (vars (cl_ctx cl)) fs = Some e1 ->
+    InvA HEAP_BASE hs (roots he) hl fl cl0 ->
+    P03 hs ->
+    Heap.frontier hs <= LIMIT ->
+    (fs <> nil -> HeapRep.rep_flds lk (Heap.m hs) fs q) ->
+    let c0 := removelast c in
+    exists (pcb : positive) (lcb : N) (cb : list xcode) (lcb' : N) (s' : xstate),
+      X86Exec.exec_to im pc s pcb s' /\
+      code_statement x86_backend (ptypes p) (cl_body cl) (c0 ++ cl_ctx cl) lcb = Ok (cb, lcb') /\
+      X86Exec.code_at im pcb cb /\
+      X86SimRel.labels_at_nh im pcb cb /\
+      lin_check (sigs_of p) (c0 ++ cl_ctx cl) (cl_body cl) = true /\
+      hrel (ptypes p) (hclo_ok im p) (c0 ++ cl_ctx cl) (he0 ++ attach e1 (load_ptrs hs (List.length (cl_ctx cl)) q))
+        (hrun (load_ops (List.length (cl_ctx cl)) q) hs) s' sp /\ hframe_eq s s' sp.
+Proof. exact hsim_switch. Qed.
+Print Assumptions C06_sim_switch.
+
+(* `Create v {clauses} capturing env0; next`: the captured positions are stored like the fields of a Let, the second
+   temporary gets the address of the clauses' code (lea of a label placed behind `next`), and the closure is
+   represented with CLO = hclo_ok: every clause's code is in the image.  Two structural hypotheses on the
+   annotation: it IS the end of the context, names included (`skipn ... = env0`; the generator orders the field
+   stores by position, the reference-count operations of a later substitution by name), and `ann_clauses_cr`
+   (the same for the statements inside the clauses). *)
+Theorem C06_sim_create_captured :
+  forall (im : image) (p : prog),
+    X86SimAddr.img_ok im -> back_ok im ->
+    (forall (pc : PM.key) (a : Z), PM.find pc (addr_of im) = Some a -> a < 4611686018427387904) ->
+    forall (c : ctx) (he : henv) (hs : Heap.st) (s : xstate) (sp : Z) (v : ident) (t : ty) (env0 : ctx) (cls : list (ident * ctx * stmt))
+           (next : stmt) (lc : N) (code : list xcode) (lc' : N) (pc : positive) (he0 cap : list hentry) (tn : ident) (ce : env)
+           (hl fl cl : list Z),
+    hrel (ptypes p) (hclo_ok im p) c he hs s sp ->
+    lin_check (sigs_of p) c (Create v t (Some env0) cls next) = true ->
+    skipn (List.length c - List.length env0) c = env0 ->
+    ann_clauses_cr env0 cls = true ->
+    code_statement x86_backend (ptypes p) (Create v t (Some env0) cls next) c lc = Ok (code, lc') ->
+    X86Exec.code_at im pc code ->
+    X86SimRel.labels_at_nh im pc code ->
+    (forall lcx : N, is_hash_label (type_label t lcx) = false) ->
+    ty_name t = Some tn ->
+    AxSem.split_last (List.length env0) he = Some (he0, cap) ->
+    bind (vars env0) (map h_val cap) = Some ce ->
+    InvA HEAP_BASE hs (roots he) hl fl cl ->
+    P03 hs ->
+    (forall en : hentry, In en he -> chi_of (h_val en) = Ext -> h_ptr en = 0) ->
+    let res0 := Heap.alloc_object (map store_ptr cap) hs in
+    Heap.frontier (snd res0) + 64 <= LIMIT ->
+    Heap.heap (snd res0) <> 0 ->
+    Heap.free (snd res0) <> 0 ->
+    let c0 := firstn (List.length c - List.length env0) c in
+    exists (c12 c3 : list xcode) (lc2 lc3 : N) (rest' : list xcode) (s' : xstate),
+      code = c12 ++ c3 ++ rest' /\
+      code_statement x86_backend (ptypes p) next (c0 ++ {| bvar := v; bchi := Cns; bty := t |} :: nil) lc2 = Ok (c3, lc3) /\
+      lin_check (sigs_of p) (c0 ++ {| bvar := v; bchi := Cns; bty := t |} :: nil) next = true /\
+      X86Exec.exec_to im pc s (X86Exec.padd pc (List.length c12)) s' /\
+      hrel (ptypes p) (hclo_ok im p) (c0 ++ {| bvar := v; bchi := Cns; bty := t |} :: nil) (he0 ++ (v, VClo tn cls ce, fst res0) :: nil)
+        (snd res0) s' sp /\ hframe_eq s s' sp.
+Proof. exact hsim_create. Qed.
+Print Assumptions C06_sim_create_captured.
+
+(* `Invoke v tag`: indirect jump through the second temporary (plus the table offset of tag), the clause's code
+   loads the captured variables from the block in the first temporary behind the arguments, and reaches the clause
+   body's code (all from `hclo_ok`), in a related state *)
+Theorem C06_sim_invoke_captured :
+  forall (im : image) (p : prog) (c : ctx) (he : henv) (hs : Heap.st) (s : xstate) (sp : Z) (v tag : ident) (t : ty)
+         (args : ctx) (cd : list xcode) (lc lc' : N) (pc : positive) (he0 : list hentry) (x tn : ident) (cls : list clause)
+         (ce : list (ident * value)) (q : Z) (cl : clause) (e1 : env) (lk : HeapRep.lkmap) (hl fl cl0 : list Z),
+    hrel (ptypes p) (hclo_ok im p) c he hs s sp ->
+    (forall (pc0 : PM.key) (c0 : xcode), PM.find pc0 (code im) = Some c0 -> instr_wf c0 = true) ->
+    AxSem.split_last 1 he = Some (he0, (x, VClo tn cls ce, q) :: nil) ->
+    find_clause cls tag = Some cl ->
+    bind (vars (cl_ctx cl)) (map snd (erase_env he0)) = Some e1 ->
+    lin_check (sigs_of p) c (Invoke v tag t args) = true ->
+    code_statement x86_backend (ptypes p) (Invoke v tag t args) c lc = Ok (cd, lc') ->
+    X86Exec.code_at im pc cd ->
+    InvA HEAP_BASE hs (roots he) hl fl cl0 ->
+    P03 hs ->
+    Heap.frontier hs <= LIMIT ->
+    (ce <> nil -> HeapRep.rep_flds lk (Heap.m hs) (map snd ce) q) ->
+    exists (pcb : positive) (lcb : N) (cb : list xcode) (lcb' : N) (s' : xstate),
+      X86Exec.exec_to im pc s pcb s' /\
+      code_statement x86_backend (ptypes p) (cl_body cl) (cl_ctx cl ++ ctx_of_env ce) lcb = Ok (cb, lcb') /\
+      X86Exec.code_at im pcb cb /\
+      X86SimRel.labels_at_nh im pcb cb /\
+      lin_check (sigs_of p) (cl_ctx cl ++ ctx_of_env ce) (cl_body cl) = true /\
+      ann_check (cl_ctx cl ++ ctx_of_env ce) (cl_body cl) = true /\
+      hrel (ptypes p) (hclo_ok im p) (cl_ctx cl ++ ctx_of_env ce) (attach e1 (ptrs he0) ++ attach ce (load_ptrs hs (List.length ce) q))
+        (hrun (load_ops (List.length ce) q) hs) s' sp /\ hframe_eq s s' sp.
+Proof. exact hsim_invoke. Qed.
+Print Assumptions C06_sim_invoke_captured.
+
+(* `Substitute` with objects and closures among the variables: the weakening / contraction code (erase of every
+   dropped pointer, share of every duplicated one - the instrumented machine's `subst_ops`, in the generator's
+   order) followed by the parallel moves of both temporaries *)
+Theorem C06_sim_substitute_objects :
+  forall (im : image) (types : list tydecl) (CLO : Z -> ident -> list clause -> ctx -> Prop) (c : ctx) (he : henv) (hs : Heap.st)
+         (s : xstate) (sp : Z) (re : list (binding * ident)) (he' : henv) (c1 : list xcode) (lc lc1 : N) (c2 : list xcode)
+         (pc : positive) (hl fl cl : list Z),
+    hrel types CLO c he hs s sp ->
+    NoDup (SubstGraph.new_ids re) ->
+    (forall q : binding * ident, In q re -> has c (snd q) (bchi (fst q)) (bty (fst q)) = true) ->
+    hsubst he re = Some he' ->
+    ctx_of he = c ->
+    InvA HEAP_BASE hs (roots he) hl fl cl ->
+    P03 hs ->
+    Heap.frontier hs <= LIMIT ->
+    code_weakening_contraction x86_backend (transpose re c) c lc = Ok (c1, lc1) ->
+    code_exchange x86_backend (transpose re c) c (map fst re) = Ok c2 ->
+    X86Exec.code_at im pc (c1 ++ c2) ->
+    X86SimRel.labels_at_nh im pc (c1 ++ c2) ->
+    exists s' : xstate,
+      X86Exec.exec_to im pc s (X86Exec.padd pc (List.length (c1 ++ c2))) s' /\
+      hrel types CLO (map fst re) he' (hrun (subst_ops he re) hs) s' sp /\ hframe_eq s s' sp.
+Proof. exact hsim_substitute. Qed.
+Print Assumptions C06_sim_substitute_objects.
+
+(* COMPOSITION by induction on the fuel of the instrumented machine's run function, all eleven statement forms,
+   progress included; `hinv`: the allocator invariant with the environment as roots, typing of the configuration,
+   blocks have zero or three slots, and the frontier bound along the rest of the run *)
+Theorem C06_sim_exec_heap :
+  forall (im : image) (p : prog) (sp : Z),
+    X86SimAddr.img_ok im -> back_ok im ->
+    (forall (pc : PM.key) (a : Z), PM.find pc (addr_of im) = Some a -> a < 4611686018427387904) ->
+    (forall (pc : PM.key) (c : xcode), PM.find pc (code im) = Some c -> instr_wf c = true) ->
+    (forall d : tydecl, In d (ptypes p) -> is_hash_label (label_of_type_name (show_ident (tname d))) = false) ->
+    (forall d : def, In d (pdefs p) ->
+      exists (pcd : positive) (lcd : N) (cd : list xcode) (lcd' : N),
+        find_label (labels im) (show_ident (dname d) +++ "_") = Some pcd /\
+        PM.find pcd (code im) = Some (LAB (show_ident (dname d) +++ "_")) /\
+        code_statement x86_backend (ptypes p) (dbody d) (dctx d) lcd = Ok (cd, lcd') /\
+        X86Exec.code_at im (Pos.succ pcd) cd /\ X86SimRel.labels_at_nh im (Pos.succ pcd) cd) ->
+    (exists pcc : positive, find_label (labels im) "cleanup" = Some pcc /\ X86Exec.code_at im pcc cleanup) ->
+    lin_check_prog p = true ->
+    ann_check_prog p = true ->
+    forall (fuel : nat) (s : stmt) (c : ctx) (he : henv) (hs : Heap.st) (ot : prints) (tr : list Heap.op) (st : xstate)
+           (pc : positive) (code : list xcode) (lc lc' : N),
+    lin_check (sigs_of p) c s = true ->
+    ann_check c s = true ->
+    code_statement x86_backend (ptypes p) s c lc = Ok (code, lc') ->
+    X86Exec.code_at im pc code ->
+    X86SimRel.labels_at_nh im pc code ->
+    hrel (ptypes p) (hclo_ok im p) c he hs st sp ->
+    map h_id he = vars c ->
+    hinv p he hs s ->
+    X86SimProg.outer_ok st sp ->
+    out st = ot ->
+    X86SimProg.not_oof (fst (fst (hexec fuel p {| hc_env := he; hc_heap := hs; hc_stmt := s |} ot tr))) ->
+    X86SimRel.finishes im pc st (fst (fst (hexec fuel p {| hc_env := he; hc_heap := hs; hc_stmt := s |} ot tr))).
+Proof. exact hsim_exec. Qed.
+Print Assumptions C06_sim_exec_heap.
+
+(* THE PROGRAM-LEVEL THEOREM, ALL STATEMENT FORMS.  For every linearly well-typed program (C05) whose entry takes
+   integers (`entry_ext`), with plain definition and type names, whose emitted code passes asm_wf and code_small:
+   every run of the linear machine that ends (result, undefined operation, or stuck - anything but out-of-fuel) is
+   reproduced by the ISA run of the emitted code, same prints, same end.  No restriction on statement forms is left.
+   `_partial` because of two hypotheses that are not checks of C14 on the output:
+     ann_check_prog p    (boolean) every Create's annotation is literally the end of its context (and every clause of
+                         a Switch / Create is checked in the context the generator uses).  The generator stores
+                         captured variables by position but orders reference-count operations by name, so a Create
+                         annotated with other names is outside what the proof covers.  NOT a restriction for the
+                         compiler: every output of the linearization pass satisfies it (C06_linearize_ann), whence
+                         C06_codegen_correct_linearized_partial without it.
+     heap_fits p args    (not a boolean on p: a bound along the run) in every configuration the instrumented machine
+                         reaches from the arguments, allocation frontier + 64 <= HEAP_BASE + HEAP_SIZE: the run fits
+                         the 32 MiB heap region of the ISA model.  Necessary: the linear machine has no memory
+                         bound, the ISA model faults outside the region (and the generated code does not check).
+                         Decided along any terminating run by `fits_run` (C06_heap_fits_decided). *)
+Theorem C06_codegen_simulates_partial :
+  forall (p : prog) (lc : N) (cs : list xcode) (n : nat) (lc' : N) (args : list Z) (fuel : nat) (o : obs),
+    lin_check_prog p = true -> ann_check_prog p = true -> AxHeapTyping.entry_ext p = true ->
+    plain_names p = true -> plain_types p = true ->
+    x86_compile p lc = Ok (cs, n, lc') -> asm_wf cs = None -> code_small cs = true ->
+    List.length args = n -> heap_fits p args ->
+    run_linear fuel p args = o -> snd o <> OOutOfFuel ->
+    exists outer inner, fst (run_x86 outer inner cs args) = o.
+Proof. exact x86_codegen_simulates. Qed.
+Print Assumptions C06_codegen_simulates_partial.
+
+(* the annotation check holds for every output of the linearization pass *)
+Theorem C06_linearize_ann : forall p : prog, prog_ok p = true -> ann_check_prog (linearize p) = true.
+Proof. exact linearize_ann. Qed.
+Print Assumptions C06_linearize_ann.
+
+(* C06_codegen_correct_statement for the compiler's own intermediate programs: the code generator applied to the
+   output of the linearization pass; both structural checks are theorems (C05_linearize_exact, C06_linearize_ann);
+   runs that end with a result or an undefined operation (then the argument count is right) *)
+Theorem C06_codegen_correct_linearized_partial :
+  forall (a : prog) (lc : N) (cs : list xcode) (n : nat) (lc' : N) (args : list Z) (fuel : nat) (o : obs),
+    prog_ok a = true ->
+    AxHeapTyping.entry_ext (linearize a) = true -> plain_names (linearize a) = true -> plain_types (linearize a) = true ->
+    x86_compile (linearize a) lc = Ok (cs, n, lc') -> asm_wf cs = None -> code_small cs = true ->
+    heap_fits (linearize a) args ->
+    run_linear fuel (linearize a) args = o -> defined o = true ->
+    exists outer inner, fst (run_x86 outer inner cs args) = o.
+Proof. exact x86_codegen_correct_linearized. Qed.
+Print Assumptions C06_codegen_correct_linearized_partial.
+
+(* `heap_fits` is decided by running the instrumented machine: if the run ends within the fuel and every
+   configuration on the way passes the bound, the hypothesis holds *)
+Theorem C06_heap_fits_decided :
+  forall (fuel : nat) (p : prog) (args : list Z), fits_run fuel p args = true -> heap_fits p args.
+Proof. exact fits_run_sound. Qed.
+Print Assumptions C06_heap_fits_decided.
+
+(* non-vacuity: the program of Proof/AxHeapExample.v, linearized - lists built by Let and taken apart by Switch, a
+   five-field record (two chained blocks), an object shared and one dropped by substitutions, a closure that
+   CAPTURES an integer and is invoked, two definitions calling each other: every hypothesis evaluated; the theorem
+   applied; and both machines evaluated on the arguments [3; 100] *)
+Theorem C06_codegen_simulates_heap_example_hypotheses :
+  lin_check_prog hx_lin = true /\ ann_check_prog hx_lin = true /\ AxHeapTyping.entry_ext hx_lin = true /\
+  plain_names hx_lin = true /\ plain_types hx_lin = true /\
+  (exists lc', x86_compile hx_lin 0 = Ok (hxe_code, 2%nat, lc')) /\ asm_wf hxe_code = None /\ code_small hxe_code = true /\
+  fits_run 2000 hx_lin [3; 100] = true.
+Proof. exact hxe_hypotheses. Qed.
+Print Assumptions C06_codegen_simulates_heap_example_hypotheses.
+Theorem C06_codegen_simulates_heap_example_applied :
+  exists outer inner, fst (run_x86 outer inner hxe_code [3; 100]) = run_linear 2000 hx_lin [3; 100].
+Proof. exact hxe_simulated. Qed.
+Print Assumptions C06_codegen_simulates_heap_example_applied.
+Theorem C06_codegen_simulates_heap_example_runs :
+  run_linear 2000 hx_lin [3; 100] = ([(true, 106)], OExit 106) /\
+  fst (run_x86 20 2000 hxe_code [3; 100]) = ([(true, 106)], OExit 106).
+Proof. exact hxe_runs. Qed.
+Print Assumptions C06_codegen_simulates_heap_example_runs.
